@@ -1,7 +1,7 @@
 """Source tie of C14 (Pickle block), the DUMPING / PERSISTING side: a fail-closed, syntax-directed translator from
 
     deepdiff/serialization.py :  pickle_dump (body, parameter defaults, co_varnames), pickle_load (co_varnames),
-                                 JSON_CONVERTOR (the literal type -> converter table)
+                                 JSON_CONVERTOR (the literal type -> converter table), json_convertor_default (the mapping and the closure)
     deepdiff/delta.py         :  Delta.__init__ (the defaults deserializer=pickle_load / serializer=pickle_dump, the choice
                                  of _deserializer, the if/elif chain that selects where self.diff comes from),
                                  Delta.dump / dumps / to_dict
@@ -16,7 +16,8 @@ to Gallina definitions over the vocabulary of coq/theories/Pickle/PersistPrims.v
     g_delta_source (a : init_args) : source
     g_Delta_dump_mode (serializer_co_varnames : list string) : dump_mode
     g_Delta_dumps_mode : dumps_mode      g_Delta_to_dict_mode : to_dict_mode
-    g_JSON_CONVERTOR : list (string * jconv)
+    g_JSON_CONVERTOR : table      g_convertor_mapping (default_mapping : table) : table
+    g_convertor (mapping : table) (obj : pycl) : conv_result          (json_convertor_default's closure)
 
 _RestrictedPickler.persistent_id is NOT translated here: the generated file imports g_persistent_id from DDGen.PickleGen,
 the file harness/translate/unpickler.py (source tie `unpickler`, registered for C14 as well) generates from the same source.
@@ -317,10 +318,147 @@ def translate_json_convertor(tr, out):
                 bad(SER, n, "JSON_CONVERTOR is used outside its definition, a conditional top-level entry and json_convertor_default")
     out += ["(* JSON_CONVERTOR = { <class>: <converter>, ... } in the order of the literal; a lambda is recorded by the text of its",
             "   body with its parameter renamed to x.  Conditional top-level entries (key only): %s *)" % (", ".join(cond_rows) or "none"),
-            "Definition g_JSON_CONVERTOR : list (string * jconv) := ["]
+            "Definition g_JSON_CONVERTOR : table := ["]
     out += ["  " + r + (";" if i + 1 < len(rows) else "") for i, r in enumerate(rows)]
     out += ["].", "Definition g_JSON_CONVERTOR_conditional_keys : list string := [%s]." % "; ".join(coq_str(SER, d, x) for x in cond_rows), ""]
 
+
+
+def translate_json_convertor_default(tr, out):
+    """json_convertor_default(default_mapping=None): the mapping the closure closes over, and the closure _convertor(obj)"""
+    tree, text = tr.tree, tr.text
+    defs = [n for n in tree.body if isinstance(n, ast.FunctionDef) and n.name == "json_convertor_default"]
+    if len(defs) != 1 or len([1 for nm, _n in _bound_names(tree) if nm == "json_convertor_default"]) != 1:
+        bad(SER, (defs or tree.body)[0], "json_convertor_default is not defined exactly once at top level")
+    f = defs[0]
+    a = f.args
+    if f.decorator_list or [x.arg for x in a.args] != ["default_mapping"] or len(a.defaults) != 1 or a.vararg or a.kwarg or a.kwonlyargs \
+            or a.posonlyargs or not (isinstance(a.defaults[0], ast.Constant) and a.defaults[0].value is None):
+        bad(SER, f, "json_convertor_default is not `def json_convertor_default(default_mapping=None)`")
+    for nm in ("isinstance", "list", "copy", "TypeError", "type"):
+        b = [node for name, node in _bound_names(tree) if name == nm]
+        if nm == "copy":
+            if len(b) != 1 or not (isinstance(b[0], ast.ImportFrom) and b[0].module == "copy"):
+                bad(SER, (b or tree.body)[0], "`copy` is not bound once by `from copy import ... copy`")
+        elif b:
+            bad(SER, b[0], "the builtin %r is rebound" % nm)
+
+    def cmt(node, extra=""):
+        return "(* %s%s *)" % (src_of(text, node), extra)
+    body = [s for s in f.body if not is_doc(s)]
+    if len(body) != 3 or not isinstance(body[0], ast.If) or not isinstance(body[1], ast.FunctionDef) or not isinstance(body[2], ast.Return):
+        bad(SER, f, "json_convertor_default is not: if ...: <mapping> else: <mapping>; def _convertor(obj): ...; return _convertor")
+    sel, clo, ret = body
+    if not is_name(ret.value, clo.name):
+        bad(SER, ret, "json_convertor_default does not return its closure")
+    # ---- the mapping ----
+    mvar = [None]
+
+    def mapping_branch(stmts, ind):
+        pad = "  " * ind
+        lines = []
+        for s in stmts:
+            if is_doc(s):
+                continue
+            if isinstance(s, ast.Assign) and len(s.targets) == 1 and is_name(s.targets[0]):
+                v = s.value
+                nm = s.targets[0].id
+                if nm in ("default_mapping", "JSON_CONVERTOR"):
+                    bad(SER, s, "assignment to %r" % nm)
+                if is_name(v, "JSON_CONVERTOR"):
+                    t = "g_JSON_CONVERTOR"
+                elif isinstance(v, ast.Call) and isinstance(v.func, ast.Attribute) and v.func.attr == "copy" and is_name(v.func.value, "JSON_CONVERTOR") \
+                        and not v.args and not v.keywords:
+                    t = "(table_copy g_JSON_CONVERTOR)"
+                else:
+                    bad(SER, s, "the mapping is bound to something other than JSON_CONVERTOR / JSON_CONVERTOR.copy()")
+                if mvar[0] not in (None, nm):
+                    bad(SER, s, "two different mapping variables")
+                mvar[0] = nm
+                lines.append(pad + "let %s := %s in %s" % (nm, t, cmt(s)))
+            elif isinstance(s, ast.Expr) and isinstance(s.value, ast.Call) and isinstance(s.value.func, ast.Attribute) and s.value.func.attr == "update" \
+                    and is_name(s.value.func.value) and s.value.func.value.id == mvar[0] and len(s.value.args) == 1 and not s.value.keywords \
+                    and is_name(s.value.args[0], "default_mapping"):
+                if not any("table_copy" in x for x in lines):
+                    bad(SER, s, ".update on the module-level table itself (not on a copy)")
+                lines.append(pad + "let %s := (table_update %s default_mapping) in %s" % (mvar[0], mvar[0], cmt(s)))
+            else:
+                bad(SER, s, "statement of the mapping selection not on the white-list")
+        if mvar[0] is None or not lines:
+            bad(SER, sel, "a branch that does not bind the mapping")
+        return lines + [pad + mvar[0]]
+    if not is_name(sel.test, "default_mapping") or not sel.orelse:
+        bad(SER, sel, "the mapping selection is not `if default_mapping: ... else: ...`")
+    a_ = mapping_branch(sel.body, 2)
+    b_ = mapping_branch(sel.orelse, 2)
+    out += ["(* json_convertor_default(default_mapping=None): the mapping its closure closes over *)",
+            "Definition g_convertor_mapping (default_mapping : table) : table :=",
+            "  if (table_truth default_mapping) then %s" % cmt(sel.test)] + a_ + ["  else"] + b_
+    out[-1] += "."
+    out.append("")
+    # ---- the closure ----
+    ca = clo.args
+    if clo.decorator_list or [x.arg for x in ca.args] != ["obj"] or ca.defaults or ca.vararg or ca.kwarg or ca.kwonlyargs or ca.posonlyargs:
+        bad(SER, clo, "the closure is not `def _convertor(obj)`")
+    for n in ast.walk(clo):
+        if isinstance(n, (ast.FunctionDef, ast.Lambda, ast.ClassDef, ast.Global, ast.Nonlocal, ast.While, ast.With, ast.Try, ast.Delete,
+                          ast.Import, ast.ImportFrom, ast.NamedExpr, ast.Yield, ast.YieldFrom, ast.Await)) and n is not clo:
+            bad(SER, n, "the closure contains a %s" % type(n).__name__)
+        if isinstance(n, ast.Name) and isinstance(n.ctx, ast.Store) and n.id in ("obj", mvar[0], "JSON_CONVERTOR"):
+            bad(SER, n, "the closure rebinds %r" % n.id)
+
+    def closure(stmts, ind):
+        pad = "  " * ind
+        if not stmts:
+            bad(SER, clo, "the closure can fall off its end (returns None)")
+        s, rest = stmts[0], stmts[1:]
+        if is_doc(s):
+            return closure(rest, ind)
+        if isinstance(s, ast.For):
+            t = s.target
+            it = s.iter
+            ok = (isinstance(t, ast.Tuple) and len(t.elts) == 2 and all(is_name(e) for e in t.elts) and not s.orelse
+                  and isinstance(it, ast.Call) and isinstance(it.func, ast.Attribute) and it.func.attr == "items" and is_name(it.func.value, mvar[0])
+                  and not it.args and not it.keywords and len(s.body) == 1 and isinstance(s.body[0], ast.If) and not s.body[0].orelse
+                  and len(s.body[0].body) == 1 and isinstance(s.body[0].body[0], ast.Return))
+            if not ok:
+                bad(SER, s, "loop other than `for k, v in <mapping>.items(): if isinstance(obj, k): return v(obj)`")
+            kv, vv = t.elts[0].id, t.elts[1].id
+            c = s.body[0].test
+            r = s.body[0].body[0].value
+            if not (isinstance(c, ast.Call) and is_name(c.func, "isinstance") and len(c.args) == 2 and not c.keywords and is_name(c.args[0], "obj")
+                    and is_name(c.args[1], kv)):
+                bad(SER, c, "the loop's test is not isinstance(obj, <key>)")
+            if not (isinstance(r, ast.Call) and is_name(r.func, vv) and len(r.args) == 1 and not r.keywords and is_name(r.args[0], "obj")):
+                bad(SER, r, "the loop does not return <value>(obj)")
+            return ([pad + "match (table_first (pc_isinstance obj) %s) with (* %s %s %s *)" % (
+                        mvar[0], src_of(text, s), src_of(text, s.body[0]), src_of(text, s.body[0].body[0])),
+                     pad + "| Some %s => ConvApply %s" % (vv, vv), pad + "| None =>"] + closure(rest, ind) + [pad + "end"])
+        if isinstance(s, ast.If):
+            c = s.test
+            ok = (isinstance(c, ast.Compare) and len(c.ops) == 1 and isinstance(c.ops[0], ast.Eq) and isinstance(c.comparators[0], ast.Constant)
+                  and isinstance(c.comparators[0].value, str) and isinstance(c.left, ast.Attribute) and c.left.attr == "__name__"
+                  and isinstance(c.left.value, ast.Attribute) and c.left.value.attr == "__class__" and is_name(c.left.value.value, "obj")
+                  and not s.orelse and len(s.body) == 1 and isinstance(s.body[0], ast.Return))
+            if not ok:
+                bad(SER, s, "if other than `if obj.__class__.__name__ == '<name>': return list(copy(obj))`")
+            r = s.body[0].value
+            if not (isinstance(r, ast.Call) and is_name(r.func, "list") and len(r.args) == 1 and not r.keywords and isinstance(r.args[0], ast.Call)
+                    and is_name(r.args[0].func, "copy") and len(r.args[0].args) == 1 and not r.args[0].keywords and is_name(r.args[0].args[0], "obj")):
+                bad(SER, r, "the fallback does not return list(copy(obj))")
+            return ([pad + "if (String.eqb (pc_class_name obj) %s) then %s" % (coq_str(SER, c, c.comparators[0].value), cmt(s)),
+                     pad + "  ConvListOfCopy " + cmt(s.body[0]), pad + "else"] + closure(rest, ind))
+        if isinstance(s, ast.Raise):
+            e = s.exc
+            if rest or s.cause is not None or not (isinstance(e, ast.Call) and is_name(e.func, "TypeError")):
+                bad(SER, s, "raise of something other than TypeError(...) as the last statement")
+            return [pad + "ConvTypeError (* raise TypeError(...) *)"]
+        bad(SER, s, "statement of the closure not on the white-list")
+    lines = closure([s for s in clo.body], 1)
+    out += ["(* the closure _convertor(obj), for an obj of class [obj] (isinstance and obj.__class__.__name__ are all it looks at) *)",
+            "Definition g_convertor (%s : table) (obj : pycl) : conv_result :=" % mvar[0]] + lines
+    out[-1] += "."
+    out.append("")
 
 class RenameParam(ast.NodeTransformer):
     def __init__(self, old):
@@ -778,6 +916,7 @@ def translate(repo_root):
     out = []
     translate_pickle_dump(tr, out)
     translate_json_convertor(tr, out)
+    translate_json_convertor_default(tr, out)
     dskipped = []
     dt = DeltaTr(repo_root, dskipped)
     dt.signature(out)
